@@ -218,6 +218,12 @@ impl RaftStorage<ClientRequest, ClientResponse> for FileStore {
             voted_for: hs.voted_for.unwrap_or_default(),
         };
         self.index_manager.send(req).await??;
+        //the index actor answers before it has written the file (the write runs as a ctx.wait future that
+        //blocks its mailbox); a second round trip returns only after that write, so the vote is on disk
+        //before raft answers the candidate
+        self.index_manager
+            .send(RaftIndexRequest::LoadMember)
+            .await??;
         Ok(())
     }
 
